@@ -12,6 +12,8 @@ import (
 	"runtime/debug"
 	"sort"
 	"strings"
+	"sync/atomic"
+	"time"
 )
 
 // Rng is splitmix64; every random choice of a run derives from VERIF_SEED.
@@ -31,7 +33,7 @@ func (r *Rng) Intn(n int) int {
 	}
 	return int(r.U64() % uint64(n))
 }
-func (r *Rng) Bool() bool       { return r.U64()&1 == 1 }
+func (r *Rng) Bool() bool        { return r.U64()&1 == 1 }
 func (r *Rng) Chance(p int) bool { return r.Intn(100) < p }
 func (r *Rng) Pick(xs []int) int { return xs[r.Intn(len(xs))] }
 func (r *Rng) Pick2(a, b string) string {
@@ -122,6 +124,23 @@ type Prop struct {
 	Oracle func(c Case) *OracleFailure
 	// Class names the branch a case exercised (coverage histogram; "" = trivial).
 	Class func(c Case, res string) string
+	// CaseTimeout bounds one Exec/Oracle call (0 = 120 s). A call that does not return is reported as "hang"
+	// (non-termination is a failure of every property here) and ends the run: the goroutine cannot be killed.
+	CaseTimeout time.Duration
+}
+
+// withWatchdog runs f in its own goroutine; ok=false when it did not return in time.
+func withWatchdog[T any](d time.Duration, f func() T) (out T, ok bool) {
+	ch := make(chan T, 1)
+	go func() { ch <- f() }()
+	t := time.NewTimer(d)
+	defer t.Stop()
+	select {
+	case out = <-ch:
+		return out, true
+	case <-t.C:
+		return out, false
+	}
 }
 
 // SafeExec runs f and maps a panic to "panic".
@@ -161,6 +180,10 @@ type Stats struct {
 
 // Run generates (or reads) the cases of p, executes the implementation and writes
 // <dir>/ops.txt, <dir>/impl.txt, <dir>/oracle.txt, <dir>/stats.json.
+// HungCases is incremented by a harness whenever a watchdog fires on the code under test. A hung call cannot be
+// killed (it keeps a core busy), so after a few of them the run stops early: what has been seen is reported.
+var HungCases int32
+
 func Run(p *Prop, seed uint64, tier, dir, replayOps string) error {
 	if err := os.MkdirAll(dir, 0o755); err != nil {
 		return err
@@ -197,7 +220,15 @@ func Run(p *Prop, seed uint64, tier, dir, replayOps string) error {
 		line := c.Line(i)
 		fmt.Fprintln(wo, line)
 		wo.Flush() // a crash of the whole process (panic in a library goroutine) leaves the culprit as last line
-		res := SafeExec(func() string { return p.Exec(c) })
+		limit := p.CaseTimeout
+		if limit == 0 {
+			limit = 120 * time.Second
+		}
+		res, returned := withWatchdog(limit, func() string { return SafeExec(func() string { return p.Exec(c) }) })
+		if !returned {
+			res = "hang"
+			atomic.AddInt32(&HungCases, 100)
+		}
 		fmt.Fprintf(wi, "%d %s\n", i, res)
 		st.Ops[c.Op]++
 		cl := ""
@@ -214,8 +245,16 @@ func Run(p *Prop, seed uint64, tier, dir, replayOps string) error {
 				st.Distinct++
 			}
 		}
-		if p.Oracle != nil {
-			if f := SafeOracle(func() *OracleFailure { return p.Oracle(c) }); f != nil {
+		if !returned {
+			st.OracleFail++
+			fmt.Fprintf(wr, "%d %s/hang the call did not return within %s (non-termination)\n", i, c.Op, limit)
+		} else if p.Oracle != nil {
+			f, back := withWatchdog(limit, func() *OracleFailure { return SafeOracle(func() *OracleFailure { return p.Oracle(c) }) })
+			if !back {
+				f = &OracleFailure{Sig: c.Op + "/hang", Msg: fmt.Sprintf("the oracle path did not return within %s (non-termination of the code under test)", limit)}
+				atomic.AddInt32(&HungCases, 100)
+			}
+			if f != nil {
 				st.OracleFail++
 				fmt.Fprintf(wr, "%d %s %s\n", i, f.Sig, f.Msg)
 			}
@@ -226,6 +265,10 @@ func Run(p *Prop, seed uint64, tier, dir, replayOps string) error {
 				s = s[:400] + "…"
 			}
 			st.Samples = append(st.Samples, s+" => "+trunc(res, 200))
+		}
+		if atomic.LoadInt32(&HungCases) >= 4 {
+			cases = cases[:i+1]
+			break
 		}
 	}
 	st.Cases = len(cases)
